@@ -74,12 +74,18 @@ def run_c01(tier):
                 impl.append(out)
                 reqs.append({'op': 'spec_enc', 't': c.tid, 'v': v, 'e': e})
                 reqs.append({'op': 'py_encode', 't': c.tid, 'v': v, 'e': e})
+                reqs.append({'op': 'hypotheses', 't': c.tid, 'v': v})
         ans = client.batch(reqs)[nd:]
         k = 0
         for c, v in cases:
             for e in ENDIAN:
-                out, spec, pym = impl[k], ans[2 * k], ans[2 * k + 1]
+                out, spec, pym, hyp = impl[k], ans[3 * k], ans[3 * k + 1], ans[3 * k + 2]
                 k += 1
+                # C01_py_encode_canonical applies when its three hypotheses hold; then the real encode must succeed
+                applies = hyp['wf'] and hyp['typed'] and hyp['agree']
+                chk.bump('theorem-applies' if applies else 'theorem-hypothesis-fails:' + ','.join(h for h in ('wf', 'typed', 'agree') if not hyp[h]))
+                if not hyp['wf']:
+                    chk.correspondence_mismatch('WF.wfTy holds for every schema prophyc accepts and the runtime imports', {'schema': c.text, 'type': c.name}, True, hyp)
                 casej = {'schema': c.text, 'type': c.name, 'value': v, 'endianness': e}
                 nontrivial = ('00' in out.get('bytes', '')) or c.tree['k'] == 'union' or any(m['t']['k'] in ('struct', 'union') for m in c.tree.get('ms', []))
                 chk.count((c.tree, v, e), nontrivial)
